@@ -722,7 +722,11 @@ def join_av(a, b):
               mono=a.mono & b.mono, f0=a.f0 and b.f0, const=a.const if same_const else _NOCONST,
               expo=a.expo if (a.expo is not None and a.expo == b.expo) else None,
               items=items, elem=elem, obj=a.obj if a.obj == b.obj else None,
-              tags=a.tags | b.tags, indef=a.indef or b.indef,
+              tags=a.tags | b.tags,
+              # two paths that produce arrays of provably different shapes (a fast path and its fall-back the engine could not relate): what is
+              # derived from the joined value downstream is imprecise, not a fact about the code
+              indef=a.indef or b.indef or (kind == K_ARRAY and a.kind == K_ARRAY and b.kind == K_ARRAY and a.shape is not None and
+                                           b.shape is not None and tuple(a.shape) != tuple(b.shape)),
               dmust=(a.dmust & b.dmust) if (a.dmust is not None and b.dmust is not None) else None,
               dmay=(a.dmay | b.dmay) if (a.dmay is not None and b.dmay is not None) else None,
               dvals=dvals, ref=_join_ref(a, b, kind), ext=a.ext if a.ext == b.ext else None,
